@@ -144,7 +144,7 @@ def cases(draw, fast=True):
     # allowance: the floors were raised to 2e-3 / 8e-4)
     cmin = {48: 2e-3, 64: 8e-4}.get(n, 2e-4)
     lo = max(lo, cmin * 100.0 / steps)
-    hi = min(2e-2, 0.35 * delta ** 2)
+    hi = min(2e-2, 0.48 * delta ** 2)      # the explicit scheme is stable up to e1/delta^2 = 0.5
     lo = min(lo, hi)
     e1 = float(10 ** draw(st.floats(np.log10(lo), np.log10(hi))))
     fpt = draw(st.sampled_from([3, 3, 3, 3, 1, 2, 0]))
